@@ -167,10 +167,12 @@ func init() {
 		Runs: []Run{
 			{Pkg: "fasthttp", Func: "vhC12PerIP", Quick: map[string]int{"steps": 5}, Thorough: map[string]int{"steps": 7}},
 			{Pkg: "fasthttp", Func: "vhC12ConcurrencyStep"},
+			{Pkg: "fasthttp", Func: "vhC12ServeConnBalance", Quick: map[string]int{"conns": 3}, Thorough: map[string]int{"conns": 4}},
 		},
 		Assume: []string{
 			"sequential histories only: up to `steps` open/close operations over two client IPv4 addresses with MaxConnsPerIP ∈ {1,2}, each wrapped handle closed by its owner (an immediate second Close included) and then dropped; tryAcquireConcurrency as a one-step contract from an arbitrary counter ≤ limit",
-			"concurrent interleavings of accepts, the serve loop's own acquire/release pairing (serveConnCounted, hijack release) and GetOpenConnectionsCount are outside this check; fmt.Fprintf is an approximating stub (only the status line written by formatStatusLine is inspected)",
+			"serve-loop pairing (vhC12ServeConnBalance): up to `conns` connections served one after the other through the real ServeConn with Concurrency ∈ {1,2}: plain request, hijacking request (KeepHijackedConns on/off), malformed request, silent client; none may be rejected and the concurrency and open counters must be back at zero",
+			"concurrent interleavings of accepts and the listener path (Server.Serve, worker pool) are outside this check; fmt.Fprintf is an approximating stub (only the status line written by formatStatusLine is inspected)",
 		},
 	})
 	register(&Property{
@@ -234,10 +236,12 @@ func init() {
 		Runs: []Run{
 			{Pkg: "fasthttp", Func: "vhC07RequestBodyLimit", Quick: map[string]int{"maxLimit": 6, "maxBody": 8}, Thorough: map[string]int{"maxLimit": 8, "maxBody": 9}},
 			{Pkg: "fasthttp", Func: "vhC07HeadTooLarge"},
+			{Pkg: "fasthttp", Func: "vhC07AnnouncedTooLarge", Quick: map[string]int{"maxLimit": 4}, Thorough: map[string]int{"maxLimit": 8}},
 		},
 		Assume: []string{serveAssume,
 			"server-side clauses only: MaxRequestBodySize = L symbolic in [1, maxLimit], a non-streamed POST with n ≤ maxBody arbitrary body bytes, fixed-length or chunked in one or two chunks, followed by a second request; ReadBufferSize = 64 with heads of 33..153 bytes",
-			"client MaxResponseBodySize, *WithLimit decompression and multipart helpers, streamed bodies, limits in the KiB/MiB range and other ReadBufferSize values are outside this check; the error status is only required to be 4xx (fasthttp answers 400, not 413, for an oversized body)",
+			"announced sizes (vhC07AnnouncedTooLarge): Content-Length or a single chunk-size line announcing 1..40 bytes, the data arriving in later segments, limit L from MaxRequestBodySize or from a smaller per-request RequestConfig returned by HeaderReceived (server limit 64), with and without Expect: 100-continue; once the announcement exceeds L the data segment must never be read from the connection",
+			"client MaxResponseBodySize, *WithLimit decompression and multipart helpers, streamed bodies, limits in the KiB/MiB range (incl. the 4 MiB default) and other ReadBufferSize values are outside this check; the error status is only required to be 4xx (fasthttp answers 400, not 413, for an oversized body)",
 		},
 	})
 	register(&Property{
